@@ -34,8 +34,8 @@ Definition model_ok (c : case) : bool :=
 (* the property, judged on the implementation's answers.  Queries outside the
    property's quantifier (characters of negative width, negative or int indices,
    a > b) are not judged.  A slice is judged (1) by columns ([col_slice]: what each
-   requested column shows), and (2) character by character ([slice_ref_runs],
-   [slice_ref], [inner_marks] of Spec/Columns.v: which characters, zero-width ones
+   requested column shows), and (2) character by character ([slice_ref],
+   [marks_in_range] of Spec/Columns.v: which characters, zero-width ones
    included, with which formatting) - a zero-width character that is dropped from
    the middle of the range, or kept at its start, changes no column and is only
    seen by (2). *)
@@ -63,15 +63,10 @@ Definition spec_ok (c : case) : bool :=
                 && (Z.of_nat (length (colcells wc r)) =? Z.min b W - Z.min a W)
                 && subseqb (zw_cells wc (cells r)) (zw_cells wc (cells f))
                 (* character by character, zero-width characters and formatting included:
-                   the run-aware reference for every layout ... *)
-                && cells_eqb (cells r) (slice_ref_runs wc a b f)
-                (* ... the layout-independent reference where no run begins with a
-                   zero-width character ... *)
-                && (if no_leading_marks wc f then cells_eqb (cells r) (slice_ref wc a b (cells f)) else true)
-                (* ... and every zero-width character strictly inside the range kept, in
-                   order, where only runs of zero-width characters begin with one *)
-                && (if marks_lead_only_mark_runs wc f
-                    then subseqb (inner_marks wc a b (cells f)) (zw_cells wc (cells r)) else true)
+                   the reference on the cells of f, whatever the run layout ... *)
+                && cells_eqb (cells r) (slice_ref wc a b (cells f))
+                (* ... hence exactly the zero-width characters with a < column <= b *)
+                && cells_eqb (zw_cells wc (cells r)) (marks_in_range wc a b (cells f))
             | Raise _ => false
             end
           else true
